@@ -1133,7 +1133,9 @@ class NLDFSettings(BaseSettings):
         if self.rho_mult == "one":
             rho_mult = 1
         elif self.rho_mult == "expnt":
-            rho_mult = _get_ueg_expnt(self.theta_params[0], self.theta_params[2], rho)
+            # tau_mul is only part of theta_params at the MGGA level
+            tval = self.theta_params[2] if self.sl_level == "MGGA" else 0.0
+            rho_mult = _get_ueg_expnt(self.theta_params[0], tval, rho)
         else:
             raise NotImplementedError
         return rho_mult
